@@ -17,3 +17,12 @@ open IrVerif.Names
 #print axioms C15_scoped_of_well_owned
 #print axioms C15_rename_values_atomic
 #print axioms C15_rename_values_succeeds
+#print axioms C15_first_holder_keeps
+#print axioms C15_namefix_call_first_holder_keeps
+#print axioms C15_gen_step_fresh
+#print axioms C15_gen_ikey_preserved
+#print axioms C15_gen_tensor_follows
+#print axioms C15_gen_refines_default
+#print axioms C15_gen_nonempty_necessary
+#print axioms C15_gen_total_needs_scoping
+#print axioms C15_scoping_necessary
